@@ -36,10 +36,14 @@ package source
 //@   pure
 //@ assumed (*server.DsManager).IsDataset
 //@   pure
+//@ spec dsOf(m int, name string) int
+//@ spec isProxyDs(ds int) bool
 //@ assumed (*server.DsManager).GetDataset
 //@   pure
+//@   ensures result == dsOf(dsm, id)
 //@ assumed (*server.Dataset).IsProxy
 //@   pure
+//@   ensures result == isProxyDs(ds)
 //@ assumed (source.DatasetContinuation).AsIncrToken
 //@   pure
 //@ unit (*DatasetSource).ReadEntities
@@ -81,3 +85,77 @@ package source
 //@   loop 3
 //@     invariant len(d.Tokens) == len(s.DatasetSources) && 0 <= d.activeIdx && d.activeIdx < len(s.DatasetSources)
 //@     invariant forall i int :: 0 <= i && i < len(s.DatasetSources) ==> s.DatasetSources[i] != nil
+
+// ---------------------------------------------------------------------------
+// C18: one dependency of a MultiSource: the dependency's token moves only after the join results of the changes it covers
+// were collected, to exactly the position findChanges returned; emitted entities are loaded with the main dataset as scope
+
+//@ assumed (*MultiSource).getDatasetFor
+//@   pure
+//@ assumed (*MultiSource).findChanges
+//@   preserves MultiDatasetContinuation.*, StringDatasetContinuation.*, map[string]*source.StringDatasetContinuation, MultiSource.DatasetName, MultiSource.Store, Dependency.*
+//@ assumed (*server.Store).DatasetsToInternalIDs
+//@   pure
+//@   ensures mainScope(result, datasets)
+//@ spec mainScope(ids slice, names slice) bool
+//@ assumed (*server.Store).GetPredicateID
+//@   pure
+//@ assumed (*server.Store).GetEntityWithInternalID
+//@   pure
+//@   ensures ret1 == nil ==> ret0 != nil
+
+//@ unit (*MultiSource).processDependency
+//@   prop C18
+//@   ghost contG int = 0
+//@   ghost sinceG int = 0
+//@   ghost mainNamesG slice
+//@   requires multiSource != nil && d != nil && multiSource.Store != nil
+//@   dyncall processEntities preserves MultiDatasetContinuation.*, StringDatasetContinuation.*, map[string]*source.StringDatasetContinuation, MultiSource.DatasetName, MultiSource.Store, Dependency.*
+//@   at call DatasetsToInternalIDs#1 before
+//@     assert [main-scope-is-the-main-dataset-alone] len(datasets) == 1 && datasets[0] == multiSource.DatasetName
+//@     ghost mainNamesG := datasets
+//@   at call findChanges#1 before
+//@     assert [changes-read-from-the-stored-position-of-this-dependency] depSince != nil && d.DependencyTokens[dep.Dataset] == depSince
+//@     ghost sinceG := depSince
+//@   at call findChanges#1
+//@     ghost contG := $result1
+//@   at call GetEntityWithInternalID#1 before
+//@     assert [emitted-entities-are-loaded-with-the-main-dataset-as-scope] mainScope(targetDatasetIds, mainNamesG) && mergePartials
+//@   at call processEntities#1 before
+//@     assert [dependency-token-not-advanced-while-join-results-are-still-collected] d.DependencyTokens[dep.Dataset] == sinceG
+//@   at call processEntities#2 before
+//@     assert [dependency-token-advanced-to-the-position-findChanges-returned] d.DependencyTokens[dep.Dataset] != nil && d.DependencyTokens[dep.Dataset].Token == itoa(contG)
+//@   loop 1
+//@     invariant d.DependencyTokens != nil && d.DependencyTokens[dep.Dataset] == sinceG && sinceG != 0
+//@   loop 2
+//@     invariant d.DependencyTokens != nil && d.DependencyTokens[dep.Dataset] == sinceG && sinceG != 0
+
+// implicit dependencies: every join hop of every declared dependency whose dataset is neither a proxy nor the main dataset
+// is tracked as a dependency of its own, with the remaining hops as its join path
+//@ spec tracks(mgr int, main string, name string) bool = !(dsOf(mgr, name) != 0 && isProxyDs(dsOf(mgr, name))) && name != main
+//@ spec jkey(s slice, j int) int = arrOf(s) * 1000003 + offOf(s) + j
+//@ unit (*MultiSource).DedupAndTrackImplicitDependencies
+//@   prop C18
+//@   ghost trackedG intset = emptyset()
+//@   requires multiSource != nil
+//@   ensures [every-trackable-join-hop-becomes-an-implicit-dependency] forall a int, j int :: 0 <= a && a < old(len(multiSource.Dependencies)) && 0 <= j && j < len(old(multiSource.Dependencies[a].Joins)) && tracks(multiSource.DatasetManager, multiSource.DatasetName, old(multiSource.Dependencies[a].Joins)[j].Dataset) ==> has(trackedG, jkey(old(multiSource.Dependencies[a].Joins), j))
+//@   at call append#1 before
+//@     assert [implicit-dependency-starts-at-the-hop-dataset-and-keeps-the-remaining-path] implicitDep.Dataset == join.Dataset && arrOf(implicitDep.Joins) == arrOf(dep.Joins) && offOf(implicitDep.Joins) == offOf(dep.Joins) + i + 1 && len(implicitDep.Joins) == len(dep.Joins) - i - 1
+//@     ghost trackedG := add(trackedG, jkey(dep.Joins, i))
+//@   loop 1
+//@     invariant -1 <= $i && $i < old(len(multiSource.Dependencies))
+//@     invariant multiSource.DatasetManager == old(multiSource.DatasetManager) && multiSource.DatasetName == old(multiSource.DatasetName)
+//@     invariant forall a int :: 0 <= a && a < old(len(multiSource.Dependencies)) ==> old(multiSource.Dependencies)[a] == old(multiSource.Dependencies[a])
+//@     invariant arrOf(multiSource.Dependencies) == arrOf(old(multiSource.Dependencies)) ==> offOf(multiSource.Dependencies) == offOf(old(multiSource.Dependencies)) && len(multiSource.Dependencies) >= old(len(multiSource.Dependencies))
+//@     invariant forall a int, j int :: 0 <= a && a <= $i && 0 <= j && j < len(old(multiSource.Dependencies[a].Joins)) && tracks(multiSource.DatasetManager, multiSource.DatasetName, old(multiSource.Dependencies[a].Joins)[j].Dataset) ==> has(trackedG, jkey(old(multiSource.Dependencies[a].Joins), j))
+//@   loop 2
+//@     invariant multiSource.DatasetManager == old(multiSource.DatasetManager) && multiSource.DatasetName == old(multiSource.DatasetName)
+//@     invariant forall a int :: 0 <= a && a < old(len(multiSource.Dependencies)) ==> old(multiSource.Dependencies)[a] == old(multiSource.Dependencies[a])
+//@     invariant arrOf(multiSource.Dependencies) == arrOf(old(multiSource.Dependencies)) ==> offOf(multiSource.Dependencies) == offOf(old(multiSource.Dependencies)) && len(multiSource.Dependencies) >= old(len(multiSource.Dependencies))
+//@     invariant forall a int, j int :: 0 <= a && a <= $i1 && 0 <= j && j < len(old(multiSource.Dependencies[a].Joins)) && tracks(multiSource.DatasetManager, multiSource.DatasetName, old(multiSource.Dependencies[a].Joins)[j].Dataset) ==> has(trackedG, jkey(old(multiSource.Dependencies[a].Joins), j))
+//@     invariant -1 <= $i1 && $i1 + 1 < old(len(multiSource.Dependencies)) && dep.Joins == old(multiSource.Dependencies[$i1 + 1].Joins) && -1 <= $i && $i < len(dep.Joins)
+//@     invariant forall j int :: 0 <= j && j <= $i && tracks(multiSource.DatasetManager, multiSource.DatasetName, dep.Joins[j].Dataset) ==> has(trackedG, jkey(dep.Joins, j))
+//@   loop 3
+//@     invariant trackedG == trackedG
+//@   loop 4
+//@     invariant trackedG == trackedG
